@@ -342,16 +342,19 @@ func runC19A(ch chooser.Chooser, st *Stats) *Outcome {
 // ---------------------------------------------------------------- part B
 
 type c19BConfig struct {
-	Size     int     `json:"size"`
-	Distinct int     `json:"distinct_values"`
-	MaxRep   int     `json:"max_repeats"`
-	Counters int     `json:"independent_counters"`
-	Mean     float64 `json:"mean_count"`
-	StdDev   float64 `json:"stddev_count"`
-	Tol      float64 `json:"tolerance"`
+	Size     int `json:"size"`
+	Distinct int `json:"distinct_values"`
+	MaxRep   int `json:"max_repeats"`
+	Counters int `json:"independent_counters"`
+	// Reuse: one counter processes the stream Counters times with a Reset in
+	// between (and one continuing fair source) instead of Counters fresh counters.
+	Reuse  bool    `json:"one_counter_reset_between_runs"`
+	Mean   float64 `json:"mean_count"`
+	StdDev float64 `json:"stddev_count"`
+	Tol    float64 `json:"tolerance"`
 }
 
-var c19BSizes = []int{4, 6, 8, 12, 16, 24, 32, 64}
+var c19BSizes = []int{4, 6, 8, 12, 16, 24, 32, 64, 100, 200}
 
 // C19BCounters is the number of independent counters per configuration.
 var C19BCounters = 20000
@@ -363,9 +366,13 @@ func runC19B(ch chooser.Chooser, st *Stats) *Outcome {
 	var cfg c19BConfig
 	cfg.Size = c19BSizes[ch.Draw(len(c19BSizes), "size")]
 	mult := []int{2, 3, 5, 10, 20, 50}[ch.Draw(6, "mult")]
+	if cfg.Size > 64 && mult > 5 {
+		mult = 5 // keep the cost of one configuration bounded
+	}
 	cfg.Distinct = cfg.Size*mult + ch.Draw(cfg.Size, "extra")
 	cfg.MaxRep = 1 + ch.Draw(3, "maxrep")
 	cfg.Counters = C19BCounters
+	cfg.Reuse = ch.Draw(3, "reuse") == 2
 	subSeed := uint64(ch.Draw(1<<20, "subseed"))
 	stream := buildStream(cfg.Distinct, cfg.MaxRep, rand.NewPCG(subSeed, 0x5eed))
 
@@ -376,12 +383,22 @@ func runC19B(ch chooser.Chooser, st *Stats) *Outcome {
 	out.Trace = func() any { return cfg }
 	var sum, sumsq float64
 	h := newHasher()
+	var shared *distinct.Counter[int]
 	for k := 0; k < cfg.Counters; k++ {
 		sched.Progress()
-		src := rand.NewPCG(subSeed, uint64(k)+1)
 		var n uint64
 		p := safely(func() {
-			c := distinct.VerifNewCounter[int](cfg.Size, src)
+			var c *distinct.Counter[int]
+			if cfg.Reuse {
+				if shared == nil {
+					shared = distinct.VerifNewCounter[int](cfg.Size, rand.NewPCG(subSeed, 1))
+				} else {
+					shared.Reset()
+				}
+				c = shared
+			} else {
+				c = distinct.VerifNewCounter[int](cfg.Size, rand.NewPCG(subSeed, uint64(k)+1))
+			}
 			for _, v := range stream {
 				c.Add(v)
 			}
@@ -407,6 +424,9 @@ func runC19B(ch chooser.Chooser, st *Stats) *Outcome {
 	out.Hash = h.sum()
 	out.Steps = cfg.Counters * len(stream)
 	st.Inc("adds", int64(out.Steps))
+	if cfg.Reuse {
+		st.Inc("probe:counter_reused_through_reset", 1)
+	}
 	if math.Abs(mean-float64(cfg.Distinct)) > cfg.Tol {
 		out.Violation = &Violation{"biased-estimate", fmt.Sprintf("size %d, %d distinct values in a stream of %d: mean Count over %d independent counters is %.3f (std dev %.3f); deviation %.3f exceeds 8 standard errors = %.3f",
 			cfg.Size, cfg.Distinct, len(stream), cfg.Counters, mean, cfg.StdDev, mean-float64(cfg.Distinct), cfg.Tol)}
@@ -428,7 +448,7 @@ func init() {
 	register(&Property{
 		ID:  "C19/B",
 		Run: runC19B,
-		Rule: "one run = one (size, stream) configuration (size 4-64, 2x-50x size distinct values, repeats straddling halving passes) processed by many independent counters, each with its own fair source; alarm iff |mean(Count) - D| > 8 standard errors; " +
+		Rule: "one run = one (size, stream) configuration (size 4-200, 2x-50x size distinct values, repeats straddling halving passes) processed by many independent counters, each with its own fair source; alarm iff |mean(Count) - D| > 8 standard errors; " +
 			"every run is non-trivial (always in the sampled regime); distinct = distinct fingerprints of the vector of final counts",
 		Real:      []string{"distinct.Counter", "mapset.Set"},
 		Simulated: []string{"the counter's rand.Source (PCG sub-generators seeded from the run's choice stream)", "iteration order of the buffer map (ascending)"},
